@@ -21,18 +21,18 @@ theorem isDigitStr_natStr (n : Nat) : isDigitStr (natStr n) = true := by
     simp only [List.isEmpty_cons, Bool.not_false, Bool.true_and, List.all_eq_true]
     exact h2
 
-/-- The number-level reading of the handler loop: a declared numeric code is raised iff its decimal
-    text does not start with `2`. -/
+/-- The number-level reading of the handler loop: a declared numeric code is raised through an alias iff its decimal
+    text does not start with `2` and it is an error code. -/
 theorem mem_raisedCodes (c : Nat) (declared : List Nat) :
-    c ∈ raisedCodes declared ↔ c ∈ declared ∧ startsWith (natStr c) ['2'] = false := by
+    c ∈ raisedCodes declared ↔ c ∈ declared ∧ startsWith (natStr c) ['2'] = false ∧ isErrorCode c = true := by
   unfold raisedCodes handlerRaises
   simp only [List.mem_map, List.mem_filter, Bool.and_eq_true, Bool.not_eq_true']
   constructor
-  · rintro ⟨s, ⟨⟨n, hn, rfl⟩, _, hs⟩, rfl⟩
-    rw [digitsToNat_natStr]
-    exact ⟨hn, hs⟩
-  · rintro ⟨hc, hs⟩
-    exact ⟨natStr c, ⟨⟨c, hc, rfl⟩, isDigitStr_natStr c, hs⟩, digitsToNat_natStr c⟩
+  · rintro ⟨s, ⟨⟨n, hn, rfl⟩, ⟨_, hs⟩, he⟩, rfl⟩
+    rw [digitsToNat_natStr] at he ⊢
+    exact ⟨hn, hs, he⟩
+  · rintro ⟨hc, hs, he⟩
+    exact ⟨natStr c, ⟨⟨c, hc, rfl⟩, ⟨isDigitStr_natStr c, hs⟩, by rw [digitsToNat_natStr]; exact he⟩, digitsToNat_natStr c⟩
 
 theorem mem_generatedCodes (c : Nat) (allDeclared : List Nat) :
     c ∈ generatedCodes allDeclared ↔ c ∈ allDeclared ∧ isErrorCode c = true := by
